@@ -93,7 +93,11 @@ pub struct WalkWorker {
     /// the worker's stderr goes to a file (a pipe nobody drains would block the worker once it is full:
     /// the library prints with dbg! on some paths)
     errlog: std::path::PathBuf,
+    /// cases served so far: a worker is replaced after RECYCLE_AFTER cases, so that whatever a long-lived process accumulates
+    /// (allocator fragmentation under the address-space limit, logs) cannot be mistaken for the behaviour of one case
+    served: u64,
 }
+const RECYCLE_AFTER: u64 = 4000;
 static WORKER_SEQ: std::sync::atomic::AtomicU64 = std::sync::atomic::AtomicU64::new(0);
 impl WalkWorker {
     pub fn spawn() -> WalkWorker {
@@ -105,7 +109,7 @@ impl WalkWorker {
         let mut child = Command::new(exe).arg("worker").arg("walk").env("RUST_BACKTRACE", "0").stdin(Stdio::piped()).stdout(Stdio::piped()).stderr(Stdio::from(errfile)).spawn().expect("spawn worker");
         let stdin = child.stdin.take().unwrap();
         let stdout = BufReader::new(child.stdout.take().unwrap());
-        WalkWorker { child, stdin, stdout, errlog }
+        WalkWorker { child, stdin, stdout, errlog, served: 0 }
     }
     fn death(&mut self) -> Verdict {
         use std::os::unix::process::ExitStatusExt;
@@ -192,13 +196,32 @@ thread_local! {
 pub fn walk_isolated(bytes: &[u8], pw: &[u8], cfg: Config, scan: bool, font_codes: bool) -> Verdict {
     WORKER.with(|w| {
         let mut w = w.borrow_mut();
+        if w.as_ref().map(|x| x.served >= RECYCLE_AFTER).unwrap_or(false) {
+            *w = None;
+        }
         if w.is_none() {
             *w = Some(WalkWorker::spawn());
         }
-        let v = w.as_mut().unwrap().walk(bytes, pw, cfg, scan, font_codes, 10_000);
-        if !matches!(v, Verdict::Returned { .. } | Verdict::Panic { .. }) {
-            *w = None;
+        let worker = w.as_mut().unwrap();
+        worker.served += 1;
+        let v = worker.walk(bytes, pw, cfg, scan, font_codes, 10_000);
+        if matches!(v, Verdict::Returned { .. } | Verdict::Panic { .. }) {
+            return v;
         }
-        v
+        // a crash or a missed deadline is only attributed to this input if it happens again in a fresh process that
+        // serves nothing else (the same case must fail every time: a loaded machine or a worker that has served
+        // thousands of cases must not produce a verdict)
+        *w = None;
+        let mut fresh = WalkWorker::spawn();
+        let again = fresh.walk(bytes, pw, cfg, scan, font_codes, 20_000);
+        match again {
+            Verdict::Returned { .. } | Verdict::Panic { .. } => {
+                TRANSIENT.fetch_add(1, std::sync::atomic::Ordering::Relaxed);
+                again
+            }
+            _ => v,
+        }
     })
 }
+/// crashes / timeouts that did not reproduce in a fresh worker (reported in the evidence notes)
+pub static TRANSIENT: std::sync::atomic::AtomicU64 = std::sync::atomic::AtomicU64::new(0);
